@@ -37,7 +37,8 @@ REQUIRED = ('twin_pairs', 'automated_steps_replayed_with_defaults',
             'decision_points_compared', 'terminal_pairs_compared',
             'subsets_seen', 'client_call_sequences_compared',
             'stud_fallback_twins',
-            'observer_query_points')
+            'observer_query_points',
+            'forks')
 
 CUSTOMS = ('kuhn', 'draw5', 'stud5', 'greek', 'courchevel', 'holdem8',
            'plo8', 'badugi1', 'razzdraw', 'random')
@@ -94,7 +95,7 @@ class TwinMonitor(Monitor):
 
         # automation performs only the steps that are automated: every
         # logged operation whose kind is not in S was a client call, in order
-        client = [c[0] for c in ctx.script]
+        client = [c[0] for c in ctx.script if c[0] != '__fork__']
         manual = [opname(op) for op in log if AUTO_OF.get(opname(op)) not in S]
         ctx.counters['client_call_sequences_compared'] += 1
         if client != manual:
@@ -192,6 +193,8 @@ def make_cfg_filter(tier, shard, of):
 
 
 def pol_tweak(pol, cfg, rng):
+    if rng.random() < 0.4:
+        pol['fork_p'] = 0.03     # continue on a deepcopy mid-hand
     if pol['deal'] == 'unknown':
         pol['deal'] = 'default'
     if cfg.get('game') in gen.STUD_GAMES and cfg['n'] >= 7:
